@@ -153,6 +153,10 @@ type c07Scenario struct {
 	// the resolver answers after 2 ms and honours the context it was given, as net.Resolver does (the policy is
 	// fetched in the background while the body checks run)
 	SlowDNS bool `json:"slow_context_aware_resolver,omitempty"`
+	// spelling of the record: 0 as usual; 1 keywords capitalised (p=Reject, adkim=S: the literals of the grammar are
+	// case-insensitive); 2 tags this receiver does not use carry values it may not know (ri=0; rf=iodef; fo=2:
+	// "syntax errors in the remainder of the record SHOULD be discarded in favour of default values")
+	RecordSpelling int `json:"record_spelling,omitempty"`
 }
 
 // c07SlowResolver: answers late and gives up when its context is cancelled.
@@ -188,6 +192,15 @@ func (sc c07Scenario) record() string {
 	if sc.Pct100 {
 		r += "; pct=100"
 	}
+	switch sc.RecordSpelling {
+	case 1:
+		for _, kw := range []string{"none", "quarantine", "reject"} {
+			r = strings.ReplaceAll(r, "p="+kw, "p="+strings.ToUpper(kw[:1])+kw[1:])
+		}
+		r = strings.ReplaceAll(strings.ReplaceAll(r, "=s", "=S"), "=r;", "=R;")
+	case 2:
+		r += "; ri=0; rf=iodef; fo=2"
+	}
 	return r
 }
 
@@ -218,6 +231,7 @@ func c07Gen(t *rapid.T) c07Scenario {
 	sc.Lookup = rapid.SampledFrom([]int{0, 0, 0, 0, 1, 1, 1, 2, 3, 4, 5, 6, 7, 8, 8}).Draw(t, "lookup")
 	sc.CheckQuarantines = rapid.IntRange(0, 5).Draw(t, "check_quarantines") == 0
 	sc.SlowDNS = rapid.IntRange(0, 11).Draw(t, "slow_dns") == 0
+	sc.RecordSpelling = rapid.SampledFrom([]int{0, 0, 0, 0, 1, 2}).Draw(t, "record_spelling")
 	return sc
 }
 
